@@ -310,7 +310,15 @@ class ContractSet:
         if typ.startswith("tuple:"):
             return z3.BoolVal(isinstance(v, VTuple))
         if typ.startswith("ext:"):
-            return z3.BoolVal(isinstance(v, VRef))
+            if not isinstance(v, VRef):
+                return z3.BoolVal(False)
+            o = I.hobj(v)
+            tag = typ[4:].split(":")[0]
+            if o.kind == "ext" and o.meta.get("tag") not in (None, tag) and tag in ("queue", "transport", "lock", "datetime", "timedelta"):
+                return z3.BoolVal(False)
+            if tag == "queue" and o.meta.get("bounded"):
+                return z3.BoolVal(False)        # the contracts' queue is unbounded (put_nowait never raises QueueFull)
+            return z3.BoolVal(True)
         raise Unsupported(f"conforms: type {typ}")
 
     def make(self, I: Interp, typ: str, name: str, depth=0):
